@@ -10,9 +10,14 @@
        (non-sum node, multiplicity) - associativity, commutativity and evaluation order do not
        matter, and the size is bounded by the number of distinct non-sum nodes (state words of a
        hash are sums of older state words: flattening without multiplicities explodes);
-     - & | ^ ~ : one node holding an ordered decision diagram over the non-bitwise operands
-       (canonical for boolean functions: ch / maj / x & ~y in any of their usual forms coincide,
-       ^-chains are AC, & and | commutative);
+     - & | ^ ~ : operands enter with their diagram when it has at most KLEAVES levels (as one leaf
+       otherwise); the result is one node holding an
+       ordered decision diagram over the non-bitwise operands (canonical for boolean functions:
+       ch / maj / x & ~y in any of their usual forms coincide, & and | commutative);
+     - a ^ whose diagram would have more than KLEAVES levels: one node holding an XOR LINEAR FORM (constant + descending list of distinct
+       non-xor nodes, equal nodes cancel) - a diagram is a tree and the xor of n operands would need
+       2^n nodes (SM3's message schedule); a small diagram that is the xor of its support is flattened
+       into the form, so association and order of ^ do not matter;
      - (x >> r) op (x << (w - r)) with op in {|, ^} on a w-bit value: the rotation Ror w r x
        (rol r = ror (w - r));
      - constants folded everywhere; casts that cannot change the value dropped.
@@ -85,13 +90,17 @@ Inductive node :=
 | NRor (w r : N) (a : N)
 | NBswap (w : N) (a : N)
 | NCast (w : N) (a : N)
-| NMul (w : N) (a b : N).
+| NMul (w : N) (a b : N)
+| NXor (w c : N) (args : list N).
 
 Definition entry := (node * N)%type.
 Definition tbl := list entry.
 
 Fixpoint psum (v : N -> N) (l : list (N * N)) : N :=
   match l with [] => 0 | (a, m) :: r => m * v a + psum v r end.
+
+Fixpoint xfold (v : N -> N) (l : list N) : N :=
+  match l with [] => 0 | a :: r => N.lxor (v a) (xfold v r) end.
 
 Section Val.
 Variable rho : nat -> N.
@@ -109,6 +118,7 @@ Definition nval (vs : list N) (n : node) : N :=
   | NBswap w a => bswap w (v a)
   | NCast w a => wrap w (v a)
   | NMul w a b => wrap w (v a * v b)
+  | NXor w c l => N.lxor c (xfold v l)
   end.
 
 Definition tvals (s : tbl) : list N :=
@@ -143,6 +153,7 @@ Definition node_eqb (a b : node) : bool :=
   | NBswap w a, NBswap w' a' => (w =? w') && (a =? a')
   | NCast w a, NCast w' a' => (w =? w') && (a =? a')
   | NMul w a b, NMul w' a' b' => (w =? w') && (a =? a') && (b =? b')
+  | NXor w c l, NXor w' c' l' => (w =? w') && (c =? c') && list_nat_eqb l l'
   | _, _ => false
   end.
 
@@ -153,6 +164,7 @@ Definition args_lt (n : node) (k : N) : bool :=
   | NBit _ f => bf_lt f k
   | NShl _ _ a | NShr _ a | NRor _ _ a | NBswap _ a | NCast _ a => a <? k
   | NMul _ a b => (a <? k) && (b <? k)
+  | NXor _ _ l => forallb (fun a => a <? k) l
   end.
 
 Fixpoint find_idx (n : node) (s : tbl) (i : N) : option N :=
@@ -267,6 +279,62 @@ Definition mk_bitnode (w : N) (f : bf) : M N := fun s =>
   | _ => intern (NBit w f) w s
   end.
 
+(* ---- xor linear forms ---- *)
+
+(* symmetric difference of two descending lists *)
+Fixpoint xmerge (l1 : list N) : list N -> list N :=
+  fix go (l2 : list N) : list N :=
+    match l1, l2 with
+    | [], _ => l2
+    | _, [] => l1
+    | a :: r1, b :: r2 =>
+        if b <? a then a :: xmerge r1 l2
+        else if a <? b then b :: go r2
+        else xmerge r1 r2
+    end.
+
+Fixpoint bleaves (f : bf) : nat :=
+  match f with BC _ => 0%nat | BN _ l h => S (Nat.max (bleaves l) (bleaves h)) end.
+Fixpoint bsupport (f : bf) : list N := match f with BC _ => [] | BN x l _ => x :: bsupport l end.
+Fixpoint bconst0 (f : bf) : bool := match f with BC c => c | BN _ l _ => bconst0 l end.
+Definition bxor_of (k : bool) (sup : list N) : bf :=
+  fold_left (fun acc x => bapply xorb acc (bleaf x)) sup (BC k).
+(* is the diagram the xor of its support and a constant?  decided by rebuilding it *)
+Definition bf_pure_xor (f : bf) : option (bool * list N) :=
+  let sup := bsupport f in
+  let k := bconst0 f in
+  if bf_eqb f (bxor_of k sup) then Some (k, rev sup) else None.
+
+Definition xorform (s : tbl) (w : N) (a : N) : N * list N :=
+  match node_of s a with
+  | Some (NXor w' c l) => if w' =? w then (c, l) else (0, [a])
+  | Some (NConst c) => (c, [])
+  | Some (NBit w' f) =>
+      if w' =? w then
+        match bf_pure_xor f with
+        | Some (k, l) => if forallb (fun x => bw s x <=? w) l
+                         then ((if k then N.ones w else 0), l) else (0, [a])
+        | None => (0, [a])
+        end
+      else (0, [a])
+  | _ => (0, [a])
+  end.
+
+Definition mk_xorform (w : N) (a b : N) : M N := fun s =>
+  let '(ca, la) := xorform s w a in
+  let '(cb, lb) := xorform s w b in
+  let l := xmerge la lb in
+  let c := N.lxor ca cb in
+  match l with
+  | [] => mk_const c s
+  | _ => intern (NXor w c l) w s
+  end.
+
+Definition KLEAVES : nat := 4.
+(* the diagram of an operand if it is small, the operand as one leaf otherwise *)
+Definition bfof_small (s : tbl) (w : N) (a : N) : bf :=
+  let f := bfof s w a in if Nat.leb (bleaves f) KLEAVES then f else bleaf a.
+
 Definition mk_bit2 (o : bop) (w : N) (a b : N) : M N := fun s =>
   if (bw s a <=? w) && (bw s b <=? w) then
     match as_const s a, as_const s b with
@@ -278,7 +346,12 @@ Definition mk_bit2 (o : bop) (w : N) (a b : N) : M N := fun s =>
                    end in
         match rot with
         | Some (r, x) => mk_ror w r x s
-        | None => mk_bitnode w (bapply (bop_b o) (bfof s w a) (bfof s w b)) s
+        | None =>
+            let r := bapply (bop_b o) (bfof_small s w a) (bfof_small s w b) in
+            match o with
+            | OXor => if Nat.leb (bleaves r) KLEAVES then mk_bitnode w r s else mk_xorform w a b s
+            | _ => mk_bitnode w r s
+            end
         end
     end
   else None.
